@@ -309,7 +309,14 @@ func (r *Run) walkFields(fn *Func, info *types.Info, x ast.Expr, write bool, f f
 			if _, isVar := obj.(*types.Var); isVar {
 				switch obj.Type().Underlying().(type) {
 				case *types.Map, *types.Slice, *types.Pointer:
-					if ds, ok := fn.Defs().singleDef(obj); ok && ds.kind == "assign" && !ds.multi && ds.rhs != nil {
+					ds, ok := fn.Defs().singleDef(obj)
+					if ok && ds.multi {
+						// inner, ok := recv.f[k]: the first result is the inner container
+						if _, isIdx := ast.Unparen(ds.rhs).(*ast.IndexExpr); !isIdx || ds.idx != 0 {
+							ok = false
+						}
+					}
+					if ok && ds.kind == "assign" && ds.rhs != nil {
 						// the field itself, or an inner container below it (m := recv.f[k]: m is the inner map)
 						base := ast.Unparen(ds.rhs)
 						for {
